@@ -13,6 +13,9 @@ CONFIGS = {
                   MaxEntries=2, MustChain='TRUE'),
     'triple': dict(MaxNodes=3, LeafBases=['int', 'local', 'py/object/apply:'],
                    ParentBases=['seq', 'map', 'omap', 'str', 'local'], Names=['res'], Vals=['g'], MaxEntries=1, MustChain='TRUE'),
+    # a merge source whose entries the merging mapping overrides: every merged pair is still constructed
+    'merge3': dict(MaxNodes=3, LeafBases=['local', 'py/object/apply:'], ParentBases=['map'], Names=['res'], Vals=['g'],
+                   MaxEntries=2, MustChain='TRUE', Kinds=['s', 'm'], LeafKinds=['s'], KeyFillers=['k', 'M']),
     # thorough only
     'pairw': dict(MaxNodes=2, LeafBases=ALL, ParentBases=ALL, Names=K.ALLNAMES, Vals=['g', 'b', 'e'], MaxEntries=1, MustChain='TRUE'),
     'triplew': dict(MaxNodes=3, LeafBases=['str', 'int', 'local', 'py/name:', 'py/object/apply:', 'merge', 'value'],
@@ -22,10 +25,36 @@ CONFIGS = {
                   ParentBases=['seq', 'map', 'set', 'omap', 'pairs', 'str', 'null', 'local', 'py/dict'], Names=['res', 'lazy'],
                   Vals=['g', 'e'], MaxEntries=2, MustChain='FALSE'),
 }
-TIERS = {'quick': ['solo', 'pair', 'pair2', 'triple'], 'thorough': ['solo', 'pairw', 'free2', 'triplew']}
+TIERS = {'quick': ['solo', 'pair', 'pair2', 'triple', 'merge3'], 'thorough': ['solo', 'pairw', 'free2', 'triplew']}
+
+
+def replay_file(path, pid):
+    """Re-run the documents of a replay file: each is loaded once with the unsafe loaders (the order the check uses) and
+    then with the entry point that was reported; prints what is observed now. Exit 1 if any still violates H."""
+    import json
+    from ..common import use_repo
+    yaml = use_repo()
+    K.customise(yaml)
+    ins = K.Instruments(yaml)
+    d = json.load(open(path))
+    bad = 0
+    for x in d['violations']:
+        det = x['detail']
+        for e in ('UnsafeLoader', 'CUnsafeLoader'):
+            ins.observe(e, det['doc'])
+        o = ins.observe(det['entry'], det['doc'])
+        same = (o['st'], o['ex'], list(o['ty']), list(o['eff'])) == (det['observed']['st'], det['observed']['ex'], list(det['observed']['ty']), list(det['observed']['eff']))
+        print('%s %s via %s: reported %s, now %s%s' % (pid, det['doc'].strip()[:120], det['entry'], det['observed'],
+              {k: o[k] for k in ('st', 'ex', 'ty', 'eff')}, ' (reproduced)' if same else ''))
+        bad += same
+    if bad:
+        print('VIOLATION property=%s replay=%s' % (pid, path))
+    return 1 if bad else 0
 
 
 def main(tier, replay=None, pid='C01', classes=('Safe', 'Base')):
+    if replay:
+        return replay_file(replay, pid)
     v = Verdict(pid, tier)
     K.run(v, pid, list(classes), [(n, CONFIGS[n]) for n in TIERS[tier]], None)
     v.assumptions = ['documents are printed in flow style with verbatim tags; names are concretised to harness canary modules',
